@@ -433,6 +433,11 @@ def triples(seed, count, maxcells=3, minors=(5, 4, 2), max_edits=2, ops=None):
             if t is not None:
                 yield t
                 continue
+        if ops is None and u < 0.64:
+            t = double_append_outputs_triple(b, rnd)
+            if t is not None:
+                yield t
+                continue
         common = b
         if rnd.random() < 0.3:
             # changes made identically on both sides (agreement), e.g. the same cell inserted by both
@@ -547,6 +552,29 @@ def separate_edits_triple(b, rnd):
         upper, lower = lower, upper
     l['cells'][i]['source'], r['cells'][i]['source'] = upper, lower
     return base, l, r
+
+
+def double_append_outputs_triple(b, rnd):
+    """Both sides append outputs to the same code cell: one side several (one of them the same as, or a re-run of, the other side's
+    single new output), so that one side's insertion is split into several pieces at the same position."""
+    cand = [i for i, c in enumerate(b['cells']) if c['cell_type'] == 'code']
+    if not cand:
+        return None
+    i = rnd.choice(cand)
+    shared = nbformat.from_dict(out_result(3, '<obj at 0x7f3a2c1b9d30>'))
+    extra = [nbformat.from_dict(rnd.choice(OUTPUTS)()) for _ in range(rnd.randint(1, 2))]
+    many = [copy.deepcopy(shared)] + extra if rnd.random() < 0.5 else extra + [copy.deepcopy(shared)]
+    if rnd.random() < 0.5:
+        many.append(copy.deepcopy(shared))
+    one = copy.deepcopy(shared)
+    if rnd.random() < 0.6:
+        one['execution_count'] = 11
+    l, r = copy.deepcopy(b), copy.deepcopy(b)
+    l['cells'][i]['outputs'] = list(l['cells'][i]['outputs']) + many
+    r['cells'][i]['outputs'] = list(r['cells'][i]['outputs']) + [one]
+    if rnd.random() < 0.5:
+        l, r = r, l
+    return copy.deepcopy(b), l, r
 
 
 def mixed_outputs_triple(b, rnd):
